@@ -909,6 +909,14 @@ pub async fn handle_connection(
 
                 ret_log_app_error!(body_pipe.send_with_maybe_close(body, true).await);
 
+                // same as for normal responses: what's left of an unread request body on a
+                // HTTP/1 socket would be read as the next request.
+                if matches!(
+                    request.body(),
+                    application::Body::Http1(body) if body.unread_on_socket()
+                ) {
+                    break;
+                }
                 continue;
             }
             LimitAction::Passed => {}
